@@ -176,16 +176,141 @@ theorem entry_updateRows (ndr : Nat) (active : List Nat) (old fresh : COO) (i j 
     entry_filter_row (fun r => decide (r / ndr ∈ active))]
   by_cases h : i / ndr ∈ active <;> simp [h]
 
-/-! ### the accumulation as coded in Mpfa today -/
+/-! ### the accumulation as coded in Mpfa (now, and before the repair) -/
 
-theorem accumulateAsCoded_no_shortcut (nf ndr ndc : Nat) (subs : List Sub)
-    (h : ∀ s ∈ subs, s.own.length ≠ nf) (acc : COO) :
-    accumulateAsCoded nf ndr ndc acc subs = acc ++ accumulate ndr ndc subs := by
-  induction subs generalizing acc with
+theorem gidx_range (n nd : Nat) (hnd : 0 < nd) (i : Nat) (hi : i < n * nd) :
+    gidx (List.range n) nd i = i := by
+  have hlt : i / nd < n := (Nat.div_lt_iff_lt_mul hnd).mpr hi
+  unfold gidx
+  rw [getD_eq_getElem' _ _ (by simpa using hlt)]
+  simp only [List.getElem_range]
+  rw [Nat.mul_comm]; exact Nat.div_add_mod i nd
+
+/-- with identity maps the mapping to global numbering does nothing -/
+theorem toGlobal_eq_zeroed_of_idMaps (ndr ndc : Nat) (hr : 0 < ndr) (hc : 0 < ndc) (s : Sub)
+    (hid : idMaps ndr ndc s) : toGlobal ndr ndc s = zeroed ndr s := by
+  obtain ⟨⟨nR, hR⟩, ⟨nC, hC⟩, hin⟩ := hid
+  unfold toGlobal mapCOO
+  conv_rhs => rw [← List.map_id (zeroed ndr s)]
+  apply List.map_congr_left
+  intro t ht
+  have htl : t ∈ s.loc := (List.mem_filter.mp ht).1
+  have hb := hin t htl
+  rw [hR, hC] at hb ⊢
+  simp only [List.length_range] at hb
+  rw [gidx_range nR ndr hr _ hb.1, gidx_range nC ndc hc _ hb.2]
+  rfl
+
+theorem accumulateAsCoded_eq (nf ndr ndc : Nat) (subs : List Sub)
+    (h : ∀ s ∈ subs, s.own.length = nf → toGlobal ndr ndc s = zeroed ndr s)
+    (first : Bool) (acc : COO) (hfirst : first = true → acc = []) :
+    accumulateAsCoded nf ndr ndc first acc subs = acc ++ accumulate ndr ndc subs := by
+  induction subs generalizing first acc with
   | nil => simp [accumulateAsCoded, accumulate]
   | cons s subs ih =>
     simp only [accumulateAsCoded, accumulate]
+    have hrest := fun t ht => h t (List.mem_cons_of_mem _ ht)
+    by_cases hs : s.own.length = nf
+    · have e := h s List.mem_cons_self hs
+      rw [if_pos hs]
+      cases first with
+      | true =>
+        have : acc = [] := hfirst rfl
+        subst this
+        simp only [if_true]
+        rw [ih hrest false _ (by intro h; cases h), e]; simp
+      | false =>
+        simp only [Bool.false_eq_true, if_false]
+        rw [ih hrest false _ (by intro h; cases h), e]; simp
+    · rw [if_neg hs, ih hrest false _ (by intro h; cases h)]; simp
+
+theorem accumulateBeforeFix_no_shortcut (nf ndr ndc : Nat) (subs : List Sub)
+    (h : ∀ s ∈ subs, s.own.length ≠ nf) (acc : COO) :
+    accumulateBeforeFix nf ndr ndc acc subs = acc ++ accumulate ndr ndc subs := by
+  induction subs generalizing acc with
+  | nil => simp [accumulateBeforeFix, accumulate]
+  | cons s subs ih =>
+    simp only [accumulateBeforeFix, accumulate]
     rw [if_neg (h s List.mem_cons_self), ih (fun t ht => h t (List.mem_cons_of_mem _ ht))]
     simp
+
+/-! ### stencil index sets -/
+
+theorem hasNodeIn_iff (row : List Nat) (N : Nat → Bool) :
+    hasNodeIn row N = true ↔ ∃ v ∈ row, N v = true := by
+  unfold hasNodeIn; exact List.any_eq_true
+
+theorem allNodesIn_iff (row : List Nat) (N : Nat → Bool) :
+    allNodesIn row N = true ↔ ∀ v ∈ row, N v = true := by
+  unfold allNodesIn; exact List.all_eq_true
+
+theorem nodesOf_iff (conn : Conn) (ents : List Nat) (v : Nat) :
+    nodesOf conn ents v = true ↔ ∃ e ∈ ents, v ∈ conn.getD e [] := by
+  unfold nodesOf
+  simp [List.any_eq_true]
+
+theorem nodesOfMask_iff (conn : Conn) (mask : Nat → Bool) (v : Nat) :
+    nodesOfMask conn mask v = true ↔ ∃ e, e < conn.length ∧ mask e = true ∧ v ∈ conn.getD e [] := by
+  unfold nodesOfMask
+  simp [List.any_eq_true]
+
+theorem mem_maskToList (n : Nat) (mask : Nat → Bool) (e : Nat) :
+    e ∈ maskToList n mask ↔ e < n ∧ mask e = true := by
+  unfold maskToList; simp [List.mem_filter]
+
+/-- invariant of `cell_ind_for_partial_update`: every interaction region of every active face lies in the
+    collected cell set -/
+def RegionsInside (cn fn : Conn) (st : St) : Prop :=
+  ∀ f v c, f < fn.length → st.fp f = true → v ∈ fn.getD f [] → c < cn.length → v ∈ cn.getD c [] →
+    st.cp c = true
+
+theorem regionsInside_init (cn fn : Conn) :
+    RegionsInside cn fn { cp := fun _ => false, fp := fun _ => false } := by
+  intro f v c _ hfp; simp at hfp
+
+theorem regionsInside_stepCells (cn fn : Conn) (C : List Nat) (st : St) (_h : RegionsInside cn fn st) :
+    RegionsInside cn fn (stepCells cn fn C st) := by
+  intro f v c hf hfp hv hc hvc
+  simp only [stepCells] at hfp ⊢
+  rw [Bool.or_eq_true]
+  right
+  rw [hasNodeIn_iff]
+  refine ⟨v, hvc, ?_⟩
+  rw [Bool.or_eq_true]
+  right
+  rw [nodesOfMask_iff]
+  exact ⟨f, hf, hfp, hv⟩
+
+theorem regionsInside_stepFaces (cn fn : Conn) (S : List Nat) (st : St) (_h : RegionsInside cn fn st) :
+    RegionsInside cn fn (stepFaces cn fn S st) := by
+  intro f v c hf hfp hv hc hvc
+  simp only [stepFaces] at hfp ⊢
+  rw [Bool.or_eq_true]
+  right
+  rw [hasNodeIn_iff]
+  refine ⟨v, hvc, ?_⟩
+  rw [Bool.or_eq_true]
+  left
+  rw [nodesOfMask_iff]
+  exact ⟨f, hf, hfp, hv⟩
+
+theorem regionsInside_stepNodes (cn fn : Conn) (Nn : List Nat) (st : St) (h : RegionsInside cn fn st) :
+    RegionsInside cn fn (stepNodes cn fn Nn st) := by
+  intro f v c hf hfp hv hc hvc
+  simp only [stepNodes] at hfp ⊢
+  rw [Bool.or_eq_true] at hfp ⊢
+  rcases hfp with hold | hnew
+  · left; exact h f v c hf hold hv hc hvc
+  · right
+    rw [hasNodeIn_iff]
+    exact ⟨v, hvc, (allNodesIn_iff _ _).mp hnew v hv⟩
+
+theorem regionsInside_optStep (cn fn : Conn) (g : List Nat → St → St)
+    (hg : ∀ l st, RegionsInside cn fn st → RegionsInside cn fn (g l st))
+    (o : Option (List Nat)) (st : St) (h : RegionsInside cn fn st) :
+    RegionsInside cn fn (optStep g o st) := by
+  cases o with
+  | none => exact h
+  | some l => exact hg l st h
 
 end PorepyVerif.C14
